@@ -32,7 +32,9 @@ CODEB = [L(), Z(1), Z(MIN), Z(0), F(NAN), F(fbits(1.5)), B(True), N("A"), N("B")
          L(Z(1)), L(L()), L(N("A"), Z(1)), L(Z(1), Z(2), Z(3)), L(Z(1), L(Z(2), N("A")), I("CODE.DUP")), L(L(L(L()))),
          L(L(Z(1)), L(Z(1))), L(B(False), F(fbits(0.5)), IV([3]), L())]
 MSGB = [([], []), ([1], [True]), ([3, 0], []), ([], [False, True]), ([MIN, MAX], [True, False, True])]
-BINDB = [[], [("A", Z(1))], [("A", L()), ("NOOP", I("NOOP"))], [("B", L(N("B"))), ("TRUE", B(False)), ("A", I("INTEGER.+"))]]
+BINDB = [[], [("A", Z(1))], [("A", L()), ("NOOP", I("NOOP"))], [("B", L(N("B"))), ("TRUE", B(False)), ("A", I("INTEGER.+"))],
+         # aliases: a two-cycle, a self-definition, a chain ending in a literal
+         [("A", N("B")), ("B", N("A"))], [("A", N("A")), ("B", N("A"))], [("A", N("B")), ("B", N("é")), ("é", Z(7))]]
 
 # INTEGER pools of the instructions whose operand is an allocation size / a libm loop count
 ALLOC_I32 = [MIN, -2, -1, 0, 1, 2, 3, 12, 300]
